@@ -32,6 +32,9 @@ Maps == [ any3 |-> VM(<<K(kA), K(kB), K(kC)>>, <<VI(1), VI(2), VI(3)>>),
           ikeys2 |-> VMg(<<VI(1), VS(<<49>>)>>, <<VS(<<120>>), VS(<<121>>)>>, "mii"),
           ikeys3 |-> VMg(<<VI(10), VI(9), VS(<<57>>)>>, <<VS(<<120>>), VS(<<121>>), VS(<<122>>)>>, "mii"),
           ikeys1 |-> VMg(<<VI(1), VD(1, 0), VN(VI(1), "i64")>>, <<VS(<<120>>), VS(<<121>>), VS(<<122>>)>>, "mii"),
+          \* keys of different defined types with one value; NaN keys (which never equal themselves) next to ordinary ones
+          ikeysT |-> VMg(<<VN(VI(1), "lvla"), VN(VI(1), "lvlb"), VN(VI(1), "i8")>>, <<VS(<<120>>), VS(<<121>>), VS(<<122>>)>>, "mii"),
+          nankeys |-> VMg(<<VI(3), VI(1), VI(2)>>, <<VS(<<120>>), VS(<<121>>), VS(<<122>>)>>, "mfsnan"),
           nest |-> VM(<<K(<<112>>), K(<<113>>)>>, <<VM(<<K(kA), K(kB)>>, <<VI(1), VI(2)>>), VM(<<K(kC), K(kD)>>, <<VI(3), VI(4)>>)>>) ]
 
 Perms(n) == {p \in [1..n -> 1..n] : \A i, j \in 1..n : i # j => p[i] # p[j]}
@@ -65,22 +68,27 @@ Programs ==
     ilookup  |-> <<PrintS(Item(M, LI(1))), T(<<124>>), PrintS(Item(M, LS(<<49>>))), T(<<124>>), PrintS(Item(M, Bin("+", LI(0), LI(1)))), T(<<124>>),
                    PrintS(Item(M, Bin("~", LS(<<>>), LI(1)))), T(<<124>>), PrintS(Item(M, Bin("*", LI(3), LI(3)))), T(<<124>>), PrintS(Item(M, Bin("~", LI(9), LS(<<>>)))), T(<<124>>),
                    PrintS(Item(M, Bin("-", LI(11), LI(1)))), T(<<124>>), For1("i", Lit(VL(<<VI(1), VI(9)>>)), <<PrintS(Item(M, Bin("+", Var("i"), LI(0))))>>)>>,
+    \* a typed string-keyed map merged with a map whose keys print alike: the colliding key is read afterwards
+    mergetyped |-> <<For("v", "k", Filt("merge", Var("t"), <<M>>), KV, <<>>, FALSE), T(<<124>>), PrintS(Item(Filt("merge", Var("t"), <<M>>), LS(<<49>>))),
+                     PrintS(Item(Filt("merge", Var("t"), <<M>>), LS(<<57>>))), T(<<124>>), PrintS(Filt("join", Filt("merge", Var("t"), <<M, M>>), <<LS(<<44>>)>>))>>,
     nested   |-> <<For("inner", "k", M, <<PrintS(Var("k")), T(<<58>>), For("v", "j", Var("inner"), <<PrintS(Var("j")), PrintS(Var("v"))>>, <<>>, FALSE), T(<<59>>)>>, <<>>, FALSE)>> ]
+IKeys == {"ikeys2", "ikeys3", "ikeys1", "ikeysT", "nankeys"}
 Applicable(pn, mn) ==
     /\ (pn = "nested" <=> mn = "nest")
     /\ (pn \in {"forlit", "forlitv", "setlit"} => mn = "any3")
     /\ (pn = "lookup" => mn \in {"any3", "msi3"})
     /\ (pn = "merged" => mn \in {"any3", "any4"})
     /\ (pn = "duplit" => mn = "any3")
-    /\ (pn = "mergecollide" => mn \in {"ikeys2", "ikeys3", "ikeys1"})
-    /\ (pn = "ilookup" => mn \in {"ikeys2", "ikeys3", "ikeys1"})
-    /\ (mn \in {"ikeys2", "ikeys3", "ikeys1"} => pn \in {"forkv", "forv", "first", "last", "mergecollide", "length", "ilookup"})
+    /\ (pn = "mergecollide" => mn \in IKeys)
+    /\ (pn = "ilookup" => mn \in IKeys)
+    /\ (pn = "mergetyped" => mn \in IKeys)
+    /\ (mn \in IKeys => pn \in {"forkv", "forv", "first", "last", "mergecollide", "length", "ilookup", "mergetyped", "join", "keysjoin", "forkeys", "loopidx", "lastset"})
 
 MapCases == {[fam |-> "map", p |-> pn, m |-> mn] : pn \in DOMAIN Programs, mn \in DOMAIN Maps}
 Ref(c, perm) == Render(MkW(("main" :> Programs[c.p]), {}, {}, NoFault), "main", ("m" :> PermMap(Maps[c.m], perm)))
 Sensitive(c) == Cardinality({Ref(c, perm).out : perm \in Perms(Len(Maps[c.m].ks))}) > 1
 \* hash literals in the template are sensitive by construction (their order is the implementation's)
-LitSensitive(c) == c.p \in {"forlit", "forlitv", "setlit", "duplit", "mergecollide", "ilookup"} \/ c.m \in {"ikeys2", "ikeys3", "ikeys1"}
+LitSensitive(c) == c.p \in {"forlit", "forlitv", "setlit", "duplit", "mergecollide", "ilookup", "mergetyped"} \/ c.m \in IKeys
 
 \* ---- date formats ----------------------------------------------------------------------------------
 FmtAlphabet == {100, 68, 106, 108, 70, 109, 77, 110, 89, 121, 97, 65, 103, 71, 104, 72, 105, 115, 45, 58, 32, 44, 47}
@@ -151,7 +159,7 @@ CaseOf(c) ==
     CASE c.fam = "map" ->
            [prop |-> "C03", key |-> ToJson(c), entry |-> "main", rel |-> "same",
             tags |-> {"fam:map", "p:" \o c.p, "m:" \o c.m} \cup (IF Sensitive(c) \/ LitSensitive(c) THEN {"order-sensitive"} ELSE {"order-insensitive"}),
-            ctx |-> ("m" :> Maps[c.m]), runs |-> Runs(("main" :> Source(Programs[c.p], LMin))), expect |-> NoExpect]
+            ctx |-> ("m" :> Maps[c.m]) @@ ("t" :> Maps.msi3), runs |-> Runs(("main" :> Source(Programs[c.p], LMin))), expect |-> NoExpect]
       [] c.fam = "date" ->
            [prop |-> "C03", key |-> ToJson(c), entry |-> "main", rel |-> "same",
             tags |-> {"fam:date", "len:" \o ToString(Len(c.f))},
@@ -161,11 +169,18 @@ CaseOf(c) ==
            [prop |-> "C03", key |-> ToJson(c), entry |-> "main", rel |-> "same",
             tags |-> {"fam:dateint"} \cup (IF c.d < 0 THEN {"before1970"} ELSE {}),
             ctx |-> ("d" :> [t |-> "time", i |-> c.d]),
-            runs |-> LET tp == ("main" :> Source(<<PrintS(Filt("date", Var("d"), <<LS(c.f)>>))>>, LMin)) IN
+            runs |-> LET tp == ("main" :> Source(<<PrintS(Filt("date", Var("d"), <<LS(c.f)>>))>>, LMin))
+                         tpf == ("main" :> Source(<<PrintS(Filt("date", Call("date", <<Var("d")>>), <<LS(c.f)>>))>>, LMin)) IN
                      <<[label |-> "time", tp |-> tp, xcalls |-> [id \in {} |-> 0], repeat |-> 2],
                        [label |-> "int", tp |-> tp, xcalls |-> [id \in {} |-> 0], repeat |-> 2, ctx |-> ("d" :> VI(c.d))],
                        [label |-> "decimal", tp |-> tp, xcalls |-> [id \in {} |-> 0], repeat |-> 2, ctx |-> ("d" :> VD(c.d, 0))],
-                       [label |-> "int64", tp |-> tp, xcalls |-> [id \in {} |-> 0], repeat |-> 2, ctx |-> ("d" :> VN(VI(c.d), "i64"))]>>,
+                       [label |-> "int64", tp |-> tp, xcalls |-> [id \in {} |-> 0], repeat |-> 2, ctx |-> ("d" :> VN(VI(c.d), "i64"))],
+                       \* the date function in front of the filter, and timestamps of the narrower kinds
+                       [label |-> "fn-int", tp |-> tpf, xcalls |-> [id \in {} |-> 0], repeat |-> 2, ctx |-> ("d" :> VI(c.d))],
+                       [label |-> "fn-time", tp |-> tpf, xcalls |-> [id \in {} |-> 0], repeat |-> 2],
+                       [label |-> "int32", tp |-> tp, xcalls |-> [id \in {} |-> 0], repeat |-> 2, ctx |-> ("d" :> VN(VI(c.d), "i32"))],
+                       [label |-> "fn-int32", tp |-> tpf, xcalls |-> [id \in {} |-> 0], repeat |-> 2, ctx |-> ("d" :> VN(VI(c.d), "i32"))]>>
+                     \o (IF c.d >= 0 THEN <<[label |-> "fn-uint", tp |-> tpf, xcalls |-> [id \in {} |-> 0], repeat |-> 2, ctx |-> ("d" :> VN(VI(c.d), "u32"))]>> ELSE <<>>),
             expect |-> NoExpect]
       [] c.fam = "incwith" ->
            LET ref == Render(MkW(IncWithTp(c), {}, {}, NoFault), "main", IncWithCtx) IN
